@@ -18,6 +18,7 @@
 -/
 import Wbxml.Lemmas.AllocCont
 import Wbxml.Lemmas.AllocParse
+import Wbxml.Lemmas.AllocEnc
 import Wbxml.Model.AllocOld
 namespace Wbxml.Props.C16
 open Wbxml Wbxml.Model.Alloc
@@ -289,6 +290,131 @@ theorem free_attrs_table_clean (tbl : Ptr) (entries : List AAttr) (s : Ledger) (
   clean_of_spec fun s' hl hn =>
     (freeAttrsTable_spec tbl entries s' (wf_of_eq wf hl hn) (owns_of_eq own hl) hnone).mono
       fun r u ⟨c, h, _⟩ => ⟨c, fun hh => by omega⟩
+
+/-! ## Hand-unwound encoder functions -/
+
+theorem strtbl_element_create_clean (string : ABuf) (stat : Bool) (s : Ledger) (wf : s.WF) :
+    AnyScheduleClean (strEltCreate string stat) Option.isNone s [] (fun r => match r with | none => [] | some e => [e.hdr]) :=
+  clean_of_spec fun s' hl hn => (strEltCreate_spec string stat s' (wf_of_eq wf hl hn)).mono
+    fun r t ⟨c, h, _⟩ => ⟨c, fun hh => by rw [h hh]; rfl⟩
+
+theorem strtbl_element_destroy_clean (e : Option StrElt) (s : Ledger) (wf : s.WF) (own : Owns s (ownedEltOpt e)) :
+    AnyScheduleClean (strEltDestroy e) (fun _ => false) s (ownedEltOpt e) (fun _ => []) :=
+  clean_of_spec fun s' hl hn => (strEltDestroy_spec e s' (wf_of_eq wf hl hn) (owns_of_eq own hl)).mono
+    fun r u ⟨c, h, _⟩ => ⟨c, fun hh => by omega⟩
+
+/-- `wbxml_strtbl_add_element`: the element belongs to the table exactly when `added`; otherwise it
+    stays the caller's (who destroys it — once). -/
+theorem strtbl_add_element_clean (e : AEnc) (elt : StrElt) (s : Ledger) (wf : s.WF) (own : Owns s (e.owned ++ elt.owned)) :
+    AnyScheduleClean (strtblAddElement e elt) (fun r => !r.2.1) s (e.owned ++ elt.owned)
+      (fun r => r.1.owned ++ (if r.2.2 then [] else elt.owned)) :=
+  clean_of_spec fun s' hl hn => (strtblAddElement_spec e elt s' (wf_of_eq wf hl hn) (owns_of_eq own hl)).mono
+    fun r t ⟨_, _, _, c, h, _⟩ => ⟨c, fun hh => by rw [h hh]; rfl⟩
+
+theorem encoder_create_clean (s : Ledger) (wf : s.WF) :
+    AnyScheduleClean encCreate Option.isNone s [] ownedEncOpt :=
+  clean_of_spec fun s' hl hn => (encCreate_spec s' (wf_of_eq wf hl hn)).mono
+    fun r t ⟨c, h, _⟩ => ⟨c, fun hh => by rw [h hh]; rfl⟩
+
+theorem encoder_destroy_clean (e : Option AEnc) (s : Ledger) (wf : s.WF) (own : Owns s (ownedEncOpt e)) :
+    AnyScheduleClean (encDestroy e) (fun _ => false) s (ownedEncOpt e) (fun _ => []) :=
+  clean_of_spec fun s' hl hn => (encDestroy_spec e s' (wf_of_eq wf hl hn) (owns_of_eq own hl)).mono
+    fun r u ⟨c, h, _⟩ => ⟨c, fun hh => by omega⟩
+
+theorem encoder_init_output_clean (e : AEnc) (s : Ledger) (wf : s.WF) (own : Owns s e.owned)
+    (hok : ∀ o, e.output = some o → o.ok) :
+    AnyScheduleClean (encInitOutput e) (fun r => !r.2) s e.owned (fun r => r.1.owned) :=
+  clean_of_spec fun s' hl hn => (encInitOutput_spec e s' (wf_of_eq wf hl hn) (owns_of_eq own hl) hok).mono
+    fun r t ⟨⟨_, c, _, _⟩, _, _, h, _⟩ => ⟨c, fun hh => by rw [h hh]; rfl⟩
+
+/-- `encoder_encode_tree` (repaired) without string table: the encoder stays the caller's on every
+    exit (it is "consumed and produced again"), and a failure is reported. -/
+theorem encoder_encode_tree_clean (body : List Bytes) (e : AEnc) (s : Ledger) (wf : s.WF) (own : Owns s e.owned)
+    (hout : e.output = none) (hu : e.useStrtbl = false) (htbl : ∀ l, e.strstbl = some l → l.items = []) :
+    AnyScheduleClean (encodeTree e [] body) (fun r => r.2 != OK) s e.owned (fun r => r.1.owned) :=
+  clean_of_spec fun s' hl hn =>
+    (encodeTree_spec [] body e s' (wf_of_eq wf hl hn) (owns_of_eq own hl) hout (fun h => by rw [hu] at h; cases h) htbl).mono
+      fun r t ⟨⟨_, c, _, _⟩, _, h⟩ => ⟨c, fun hh => by simpa using h hu hh⟩
+
+/-- With the string table: no fault and no leak whatever fails, PROVIDED `wbxml_strtbl_initialize`
+    is clean (`InitClean`, not proved here: its allocation behaviour is tied by the OOM S
+    correspondence and the enumeration).  No "a failure is reported" clause: allocations that only
+    serve the sharing of strings are inessential. -/
+theorem encoder_encode_tree_strtbl_partial (texts : List ABuf) (hinit : InitClean texts) (body : List Bytes) (e : AEnc)
+    (s : Ledger) (wf : s.WF) (own : Owns s e.owned) (hout : e.output = none) (htbl : ∀ l, e.strstbl = some l → l.items = []) :
+    ∀ sched : List Nat, ∃ r s', run (encodeTree e texts body) { s with sched := sched } = (.ok r, s') ∧
+      (∀ i, i ∈ s'.live ↔ (i ∈ s.live ∧ i ∉ e.owned) ∨ i ∈ r.1.owned) := by
+  intro sched
+  obtain ⟨r, t, hrun, ⟨_, c, _, _⟩, _, _⟩ :=
+    (encodeTree_spec texts body e { s with sched := sched } (wf_of_eq wf rfl rfl) (owns_of_eq own rfl) hout (fun _ => hinit) htbl).elim
+  exact ⟨r, t, hrun, c.live⟩
+
+/-- `wbxml_build_result`: the encoder is only read, the header never outlives the call. -/
+theorem build_result_clean (e : AEnc) (version publicId : Nat) (s : Ledger) (wf : s.WF) (hl : e.hdr ∈ s.live)
+    (hout : ∀ o, e.output = some o → o.hdr ∈ s.live ∧ o.ok)
+    (hstr : ∀ l, e.strstbl = some l → ∀ x ∈ l.items, x.string.hdr ∈ s.live) :
+    AnyScheduleClean (buildResult e version publicId) (fun r => r.1 != OK) s [] (fun r => ownedResult r.2) :=
+  clean_of_spec fun s' hl' hn =>
+    (buildResult_spec e version publicId s' (wf_of_eq wf hl' hn) (by rw [hl']; exact hl)
+      (fun o ho => by rw [hl']; exact hout o ho) (fun l h x hx => by rw [hl']; exact hstr l h x hx)).mono
+      fun r t ⟨c, _, h⟩ => ⟨c, fun hh => by simpa using h hh⟩
+
+/-- … and an error never comes with a result (`*wbxml` stays NULL). -/
+theorem build_result_error_has_no_output (e : AEnc) (version publicId : Nat) (s : Ledger) (wf : s.WF) (hl : e.hdr ∈ s.live)
+    (hout : ∀ o, e.output = some o → o.hdr ∈ s.live ∧ o.ok)
+    (hstr : ∀ l, e.strstbl = some l → ∀ x ∈ l.items, x.string.hdr ∈ s.live) :
+    Good (buildResult e version publicId) s (fun r _ => r.1 ≠ OK → r.2 = none) :=
+  (buildResult_spec e version publicId s wf hl hout hstr).mono fun r t ⟨_, h, _⟩ => h
+
+/-! ## The whole conversion -/
+
+/-- `oom_result_sound` for a conversion `conv` returning (status, output): whichever single request
+    fails, the run ends without fault, the status is an error with no output and nothing left
+    allocated, or the conversion returns exactly what it returns without failure and only that
+    output is left allocated. -/
+def OomResultSound (conv : Prog (Nat × Option (Nat × Bytes))) (s : Ledger) : Prop :=
+  ∀ k : Nat, ∃ r s', run conv { s with sched := failAt k } = (.ok r, s') ∧
+    ((r.1 ≠ OK ∧ r.2 = none ∧ ∀ i, i ∈ s'.live ↔ i ∈ s.live) ∨
+     ((run conv { s with sched := [] }).1 = .ok r ∧ ∀ i, i ∈ s'.live ↔ i ∈ s.live ∨ i ∈ ownedResult r.2))
+
+/-- `oom_result_sound`, proved for the part of the pipeline that is modelled: the encoder side of
+    `wbxml_tree_to_wbxml` (encoder create → `encoder_encode_tree` → `wbxml_build_result` → encoder
+    destroy) without string table, for every document body and every k.  The parser side is covered
+    by `parse_element_clean`; the rest of the conversions (Expat call-backs, tree building, XML
+    printer, string table initialisation) by the enumeration of `tools/props/c16.py`, which is a
+    TEST and labelled so in the evidence. -/
+theorem oom_result_sound_partial (body : List Bytes) (version publicId : Nat) (s : Ledger) (wf : s.WF) :
+    OomResultSound (treeToWbxml false [] body version publicId) s := by
+  intro k
+  have hspec := treeToWbxml_spec false [] body version publicId (fun h => by cases h) { s with sched := failAt k } (wf_of_eq wf rfl rfl)
+  obtain ⟨r, t, hrun, hc, hnone, herr⟩ := hspec.elim
+  refine ⟨r, t, hrun, ?_⟩
+  by_cases hh : ({ s with sched := failAt k } : Ledger).hits < t.hits
+  · have hne := herr rfl hh
+    have hn := hnone hne
+    refine Or.inl ⟨hne, hn, fun i => ?_⟩
+    have := hc.live i
+    rw [hn] at this
+    simpa [ownedResult] using this
+  · refine Or.inr ⟨?_, fun i => by have := hc.live i; simpa using this⟩
+    have hle := hc.hits
+    have heq : (run (treeToWbxml false [] body version publicId) { s with sched := failAt k }).2.hits =
+        ({ s with sched := failAt k } : Ledger).hits := by
+      rw [hrun]; simp at hle hh ⊢; omega
+    have := run_nohit _ { s with sched := failAt k } heq
+    rw [hrun] at this
+    simpa using congrArg Prod.fst this
+
+/-- The same under any schedule, with the string table, provided its initialisation is clean: no
+    fault, and nothing but the result stays allocated. -/
+theorem tree_to_wbxml_no_leak_partial (useStrtbl : Bool) (texts : List ABuf) (hinit : useStrtbl = true → InitClean texts)
+    (body : List Bytes) (version publicId : Nat) (s : Ledger) (wf : s.WF) :
+    ∀ sched : List Nat, ∃ r s', run (treeToWbxml useStrtbl texts body version publicId) { s with sched := sched } = (.ok r, s') ∧
+      (r.1 ≠ OK → r.2 = none) ∧ (∀ i, i ∈ s'.live ↔ i ∈ s.live ∨ i ∈ ownedResult r.2) := by
+  intro sched
+  obtain ⟨r, t, hrun, hc, hnone, _⟩ :=
+    (treeToWbxml_spec useStrtbl texts body version publicId hinit { s with sched := sched } (wf_of_eq wf rfl rfl)).elim
+  exact ⟨r, t, hrun, hnone, fun i => by have := hc.live i; simpa using this⟩
 
 /-! ## The property's statement for one function, as `single_failure_clean` -/
 
